@@ -118,6 +118,29 @@ type entryOutcome struct {
 	vacuous   []string
 	expectedR []string
 	expectedA []string
+	w         *World
+	fn        *ssa.Function
+	xcfg      Config
+	tier      int
+}
+
+// reexecute runs exactly one recorded path again (same decisions, same schedule) and reports whether
+// the same violation label recurs: deterministic confirmation of a schedule-dependent
+// counterexample against the real SSA.
+func (oc *entryOutcome) reexecute(v Violation) bool {
+	cfg := oc.xcfg
+	cfg.Workers = 1
+	cfg.MaxPaths = 1
+	ex := NewExplorer(oc.w, oc.fn, cfg)
+	ex.tier = oc.tier
+	ex.initial = append([]int64{}, v.Path...)
+	res := ex.Run()
+	for _, rv := range res.Violations {
+		if rv.Label == v.Label && rv.Site == v.Site {
+			return true
+		}
+	}
+	return false
 }
 
 func cmdCheck(args []string) int {
@@ -213,7 +236,7 @@ func cmdCheck(args []string) int {
 			ex := NewExplorer(w, fn, cfg)
 			ex.tier = tier
 			res := ex.Run()
-			oc := &entryOutcome{res: res, cfg: e, group: g}
+			oc := &entryOutcome{res: res, cfg: e, group: g, w: w, fn: fn, xcfg: cfg, tier: tier}
 			oc.expectedR, oc.expectedA = expectedLabels(w, fn)
 			for _, l := range oc.expectedR {
 				if res.Reach[l] == 0 {
@@ -312,6 +335,17 @@ func cmdCheck(args []string) int {
 			fmt.Printf("  violation %s at %s: %s [native: %s]\n", vr.v.Label, vr.v.Site, vr.v.Msg, out)
 			sampleViolations = append(sampleViolations, map[string]interface{}{"label": vr.v.Label, "site": vr.v.Site, "native": out, "replay": path})
 		default:
+			if len(vr.v.Sched) > 1 && vr.oc.reexecute(vr.v) {
+				// schedule-dependent: the native scheduler cannot be forced without instrumenting the
+				// repository; the counterexample is confirmed by deterministic re-execution of the
+				// real SSA under the recorded schedule
+				confirmed++
+				exit = 1
+				vioLines = append(vioLines, fmt.Sprintf("VIOLATION property=%s replay=%s", prop, path))
+				fmt.Printf("  violation %s at %s: %s [schedule-dependent; native: %s; re-executed under the recorded schedule %v: reproduced]\n", vr.v.Label, vr.v.Site, vr.v.Msg, out, vr.v.Sched)
+				sampleViolations = append(sampleViolations, map[string]interface{}{"label": vr.v.Label, "site": vr.v.Site, "native": out, "replay": path, "schedule": vr.v.Sched})
+				break
+			}
 			inconclusive = append(inconclusive, fmt.Sprintf("%s: SPURIOUS counterexample for %s at %s (native replay: %s) replay=%s", vr.v.Entry, vr.v.Label, vr.v.Site, out, path))
 		}
 	}
